@@ -162,6 +162,29 @@ theorem Snap.id_inj {pods : List Pod} (h : Snap pods) {p q : Pod} (hp : p ∈ po
   subst this
   rw [hi] at hj; exact Option.some.inj hj
 
+/-- `Snap` with the identity of the pod objects in its weaker form: ids identify the pods of the snapshot and are below
+    the ids of objects built by the reconcile. Holds for pods numbered by position (`Snap.toI`) and for every sublist of
+    such a list — the claimed pods of a sync. The lemmas on deletes below need no more. -/
+structure SnapI (pods : List Pod) : Prop where
+  created : ∀ p ∈ pods, p.created = true
+  ordNodup : (pods.map (·.ord)).Nodup
+  idinj : ∀ p ∈ pods, ∀ q ∈ pods, p.id = q.id → p = q
+  idlt : ∀ p ∈ pods, p.id < freshId
+
+theorem Snap.toI {pods : List Pod} (h : Snap pods) : SnapI pods :=
+  ⟨h.created, h.ordNodup, fun _ hp _ hq he => h.id_inj hp hq he, fun _ hq => h.id_lt hq⟩
+
+theorem snapI_of_wf_ids {pods : List Pod} (hwf : wfSnapshot pods = true)
+    (hinj : ∀ p ∈ pods, ∀ q ∈ pods, p.id = q.id → p = q) (hlt : ∀ p ∈ pods, p.id < freshId) : SnapI pods := by
+  unfold wfSnapshot distinctOrds at hwf
+  simp only [Bool.and_eq_true, List.all_eq_true, beq_iff_eq] at hwf
+  exact ⟨hwf.1, nodup_of_eraseDups_length _ (by simpa using hwf.2), hinj, hlt⟩
+
+theorem SnapI.id_lt {pods : List Pod} (h : SnapI pods) {q : Pod} (hq : q ∈ pods) : q.id < freshId := h.idlt q hq
+
+theorem SnapI.id_inj {pods : List Pod} (h : SnapI pods) {p q : Pod} (hp : p ∈ pods) (hq : q ∈ pods) (he : p.id = q.id) :
+    p = q := h.idinj p hp q hq he
+
 theorem find_unique {α : Type} (l : List α) (k : α → Bool) (q : α) (hq : q ∈ l) (hk : k q = true)
     (huniq : ∀ p ∈ l, k p = true → p = q) : l.find? k = some q := by
   induction l with
@@ -175,7 +198,7 @@ theorem find_unique {α : Type} (l : List α) (k : α → Bool) (q : α) (hq : q
       · exact absurd hk ha
       · exact ih hq' (fun p hp => huniq p (List.mem_cons_of_mem _ hp))
 
-theorem Snap.podById {pods : List Pod} (h : Snap pods) {q : Pod} (hq : q ∈ pods) : podById pods q.id = some q := by
+theorem SnapI.podById {pods : List Pod} (h : SnapI pods) {q : Pod} (hq : q ∈ pods) : podById pods q.id = some q := by
   unfold Asts.podById
   apply find_unique pods (fun p : Pod => p.id == q.id) q hq (by simp)
   intro p hp hk
@@ -318,7 +341,7 @@ theorem createOrds_condActs (cs : List Pod) : createOrds (observe (condActs cs))
   rfl
 
 /-- deletes of one replica step are classified `.replace` -/
-theorem deletes_repActs1 (v : SetView) (cur upd : String) (b : Int) (E : List Int) (pods : List Pod) (hs : Snap pods)
+theorem deletes_repActs1 (v : SetView) (cur upd : String) (b : Int) (E : List Int) (pods : List Pod) (hs : SnapI pods)
     (iq : Int × Pod) (hiq : iq ∈ repsOf v cur upd b E pods) :
     scaleDeletes (idxOf b E) pods (observe (repActs1 v cur upd iq)) = [] ∧
     updateDeletes (idxOf b E) pods (observe (repActs1 v cur upd iq)) = [] := by
@@ -345,7 +368,7 @@ where
     unfold Pod.created
     cases hp : p.phase <;> simp_all
 
-theorem deletes_repActs (v : SetView) (cur upd : String) (b : Int) (E : List Int) (pods : List Pod) (hs : Snap pods)
+theorem deletes_repActs (v : SetView) (cur upd : String) (b : Int) (E : List Int) (pods : List Pod) (hs : SnapI pods)
     (reps : List (Int × Pod)) (hsub : ∀ iq ∈ reps, iq ∈ repsOf v cur upd b E pods) :
     scaleDeletes (idxOf b E) pods (observe (reps.flatMap (repActs1 v cur upd))) = [] ∧
     updateDeletes (idxOf b E) pods (observe (reps.flatMap (repActs1 v cur upd))) = [] := by
@@ -358,7 +381,7 @@ theorem deletes_repActs (v : SetView) (cur upd : String) (b : Int) (E : List Int
     exact ⟨rfl, rfl⟩
 
 /-- deletes of the condemned loop are classified `.scale` -/
-theorem deletes_condActs (b : Int) (E : List Int) (pods : List Pod) (hs : Snap pods)
+theorem deletes_condActs (b : Int) (E : List Int) (pods : List Pod) (hs : SnapI pods)
     (cs : List Pod) (hsub : ∀ c ∈ cs, c ∈ pods ∧ isCondemned b E c.ord = true) :
     scaleDeletes (idxOf b E) pods (observe (condActs cs)) = (cs.filter (fun c => !c.terminating)).map (·.ord) ∧
     updateDeletes (idxOf b E) pods (observe (condActs cs)) = [] := by
@@ -387,7 +410,7 @@ theorem deletes_condActs (b : Int) (E : List Int) (pods : List Pod) (hs : Snap p
       · simp [updateDeletes, OAct.isDelete, hcl]
 
 /-- the one delete the update walk can add is never classified `.scale` -/
-theorem scaleDeletes_walk (v : SetView) (cur upd : String) (b : Int) (E : List Int) (pods : List Pod) (hs : Snap pods)
+theorem scaleDeletes_walk (v : SetView) (cur upd : String) (b : Int) (E : List Int) (pods : List Pod) (hs : SnapI pods)
     (t : Int) (q : Pod) (hm : (t, q) ∈ (repsOf v cur upd b E pods).map (repNew v cur upd)) :
     scaleDeletes (idxOf b E) pods (observe [.delete t q.id .update]) = [] := by
   rw [List.mem_map] at hm
@@ -428,7 +451,7 @@ theorem mergeSort_eq_of_perm {a b : List Int} (h : a.Perm b) : a.mergeSort = b.m
 /-! ### assembly -/
 
 theorem C14_of_acts (v : SetView) (cur upd : String) (pods : List Pod) (r : Int) (hr : v.replicas = some r) (h0 : 0 ≤ r)
-    (hs : Snap pods) (l : List Action)
+    (hs : SnapI pods) (l : List Action)
     (hl : l = [] ∨ ∃ t q, (t, q) ∈ (repsOf v cur upd (maxReplicaAndSlots r v.slots).1 (maxReplicaAndSlots r v.slots).2 pods).map
         (repNew v cur upd) ∧ l = [.delete t q.id .update]) :
     C14 v pods (observe ((repsOf v cur upd (maxReplicaAndSlots r v.slots).1 (maxReplicaAndSlots r v.slots).2 pods).flatMap
@@ -498,6 +521,6 @@ theorem updateStatefulSet_par (v : SetView) (cur upd : String) (pods : List Pod)
     simp only [h2]
     rw [hreps, hcond]
     rw [hreps] at h3
-    exact C14_of_acts v cur upd pods r hr h0 hs l h3
+    exact C14_of_acts v cur upd pods r hr h0 hs.toI l h3
 
 end Asts.L1c
